@@ -160,8 +160,10 @@ def traceAction (env : Env) (idx : Nat) (a : Action) (rs : RunState) : RunState 
       | none => []
     | _, _ => []
   let evs := (s1.log.reverse.map fun e => s!"{idx} ev {e.render}") ++ obsNote
+  -- `dropall` drops the engine state BEFORE the observer handles: what they answer in between is shown once
+  let deadReads := match a with | .dropAll => true | _ => false
   let reads := joinWith " " ((List.range s1.observers.size).map fun o =>
-    if (s1.observers[o]?.map (·.clones)).getD 0 == 0 || !s1.alive then s!"o{o}=gone"
+    if (s1.observers[o]?.map (·.clones)).getD 0 == 0 || (!s1.alive && !deadReads) then s!"o{o}=gone"
     else s!"o{o}={renderRead (s1.tryGetValue env o)}")
   let alive := s1.aliveSet
   let snaps := ((List.range s1.nodes.size).filter alive.contains).map fun n => s!"{idx} snap {renderNode env s1 n}"
